@@ -719,6 +719,40 @@ def rule_args(ctx, rep):
     )
 
 
+def rule_future_drops_only_deprecated(ctx, rep):
+    from ..derive import ElemSources
+
+    rep.rule(
+        "R-FUTURE-DROPS-ONLY-DEPRECATED",
+        "remove-future-imports keeps every imported name except those it tests against its table of deprecated features: the kept list is "
+        "the statement's own `names` filtered by a *negative* membership test in that table.  Selecting the names to keep from another table "
+        "(the currently meaningful features) silently drops optional features that are in neither (`barry_as_FLUFL`), which changes what the "
+        "program means",
+        min_instances=1,
+    )
+    m = ctx.prog.module("core_codemods.remove_future_imports")
+    n = 0
+    for fn in [f for f in ctx.prog.live_functions() if f.module is m and f.cls is not None and f.name.startswith("leave_Import")]:
+        es = ElemSources(ctx, fn)
+        for c in walk_no_nested(fn.node):
+            if not (isinstance(c, ast.Call) and last_attr(c.func) == "with_changes"):
+                continue
+            nm = next((k.value for k in c.keywords if k.arg == "names"), None)
+            if nm is None:
+                continue
+            for leaf, facts in es.sources(nm):
+                if not (isinstance(leaf, ast.Attribute) and leaf.attr == "names"):
+                    continue  # the star-import branch builds fresh aliases
+                n += 1
+                pos = [txt for pol, txt in facts if pol and " in " in txt and " not in " not in txt]
+                neg = [txt for pol, txt in facts if ((not pol) and " in " in txt and " not in " not in txt) or (pol and " not in " in txt)]
+                ok = not pos and len(neg) >= 1 and all("DEPRECATED" in t.upper() for t in neg)
+                rep.check("R-FUTURE-DROPS-ONLY-DEPRECATED", fn.qname, fn.loc(c), ok, "kept-unless-deprecated",
+                          f"the kept names are selected by {pos or neg or 'no membership test'}: a name outside that table is dropped although it is not deprecated")
+    if n == 0:
+        raise AnalysisError("remove_future_imports: the filtered rewrite of an ImportFrom's names was not found")
+
+
 def check(ctx, rep):
     rep.explanation = (
         "Observational equivalence is out of reach statically; four structural necessary conditions are decided at the anchors the "
@@ -750,4 +784,9 @@ def check(ctx, rep):
     from .c02 import rule_removal_kinds
 
     rule_removal_kinds(ctx, rep)
+    rule_future_drops_only_deprecated(ctx, rep)
+    from .c01 import rule_strlit
+
+    # lazy-logging pastes literal pieces into one literal: a quote the guard lets through changes (or breaks) the program
+    rule_strlit(ctx, rep)
     rep.not_covered += ["observational equivalence over programs and runtime values", "SQL parameterisation returning the same rows", "tuple-valued names producing nested tuples in combine_args"]
